@@ -27,7 +27,7 @@ ASSUMPTIONS = [
 STATIC_SAMPLES = ['"', '{a} # {b}', 1990]
 
 SPECIALS = ['"', "{", "}", "{}", '""', "{a} # {b}", '"a" # "b"', " {a} ", "{{a}}", '"{a}"', '{"a"}', '{a}b', 'a"', '"a', "{a", "a}", "", " ", "a b", '{a"b}', '"a{"}b"', "{\\}}", '"\\""']
-INTS = [0, 7, 1990, -5, "0", "7", "1990", "007", "-5", "1e3", "12a", "١٢"]
+INTS = [0, 7, 1990, -5, "0", "7", "1990", "007", "-5", "1e3", "12a", "١٢", "½", "Ⅷ", "四", "1½"]  # the last four: str.isnumeric() but not digits
 KEYS = ["year", "month", "pages", "title", "Year", "volume"]
 NUMERIC = {"year", "month", "volume", "number", "pages", "edition", "chapter", "issue"}
 OPTIONS = [(d, r, i) for d in ("{", '"') for r in (True, False) for i in (True, False)]
@@ -40,7 +40,7 @@ def bounds(tier):
 
 
 def shards(tier):
-    return [("harvest", s) for s in seq_shards(spaces.SIGMA_VAL, 4 if tier == "quick" else 5)] + [("specials", 0), ("ints", 0), ("leak", 0)]
+    return [("harvest", s) for s in seq_shards(spaces.SIGMA_VAL, 4 if tier == "quick" else 5)] + [("specials", 0), ("ints", 0), ("leak", 0), ("casekeys", 0)]
 
 
 def ref_strip(v):
@@ -169,6 +169,37 @@ def check_value(v, acc, seen):
                 )
 
 
+def check_case_keys(acc):
+    """Field keys that differ only in letter case are different fields: each gets its own record, and reuse restores each."""
+    import itertools
+
+    vals = ['"A"', "{B}", "c", '"1990"', "{1990}", "1990"]
+    for keys in (("Title", "title"), ("title", "Title", "TITLE"), ("Year", "year"), ("a", "A", "b")):
+        for vs in itertools.product(vals, repeat=len(keys)):
+            for inplace in (True, False):
+                e = Entry("article", "k", [Field(k, v) for k, v in zip(keys, vs)])
+                case = {"case_keys": list(keys), "values": list(vs), "inplace": inplace}
+                acc.trace(2)
+                acc.case(nontrivial_key=("casekeys", keys, vs, inplace))
+                try:
+                    out = RemoveEnclosingMiddleware(allow_inplace_modification=inplace).transform(Library([e]))
+                    mid = [(f.key, f.value) for f in out.blocks[0].fields]
+                    back = AddEnclosingMiddleware(reuse_previous_enclosing=True, enclose_integers=False, default_enclosing="{", allow_inplace_modification=inplace).transform(out)
+                except Exception as ex:
+                    acc.violation({"oracle": "remove_no_exception", "exception": type(ex).__name__, "kind": "field"}, {"case": case, "observed": repr(ex), "expected": "no exception"})
+                    continue
+                got = [(f.key, f.value) for f in back.blocks[0].fields]
+                exp_mid = [(k, ref_strip(v)[0]) for k, v in zip(keys, vs)]
+                acc.step(("casekeys", keys, vs), "remove+add", canon(got))
+                if mid != exp_mid:
+                    acc.violation({"oracle": "strip_exactly_one_layer", "kind": "field", "enclosing": "mixed"}, {"case": case, "observed": mid, "expected": exp_mid})
+                elif got != list(zip(keys, vs)):
+                    acc.violation(
+                        {"oracle": "reuse_restores_original", "kind": "field", "enclosing": "keys differing in case"},
+                        {"case": case, "observed": got, "expected": list(zip(keys, vs))},
+                    )
+
+
 def expected_add(value, key, opts, recorded, numeric_applies):
     d, reuse, encl_int = opts
     if reuse and recorded is not None:
@@ -257,6 +288,8 @@ def run_shard(shard, tier, acc):
                                 check_value(f.value, acc, seen)
                     elif isinstance(b, String) and isinstance(b.value, str):
                         check_value(b.value, acc, seen)
+    elif kind == "casekeys":
+        check_case_keys(acc)
     elif kind == "leak":
         vals = SPECIALS + [str(x) for x in INTS] + ["{x}", '"x"', "x", "{X}", '"X"', "{1990}", "1990", '"1990"']
 
@@ -283,6 +316,8 @@ def run_shard(shard, tier, acc):
 
 
 def replay(case, acc):
+    if "case_keys" in case:
+        return check_case_keys(acc)
     if "value" in case:
         check_value(case["value"], acc, set())
     else:
